@@ -377,11 +377,21 @@ def check_expanded(case):
         got_t = p2.relations["pre-depends"]
         src = Sources({"Package": "x", "Build-Depends": s})
         got_b = src.relations["build-depends"]
+        # the mapping that .relations hands out is read in the other ways a mapping is read, each
+        # on an object whose field has not been subscripted before
+        got_get = Packages({"Package": "x", "Depends": s}).relations.get("depends")
+        got_items = dict(Packages({"Package": "x", "Recommends": s}).relations.items()).get("recommends")
+        vals = [v for v in Sources({"Package": "x", "Build-Depends-Indep": s}).relations.values() if v]
+        got_values = vals[0] if len(vals) == 1 else vals
+        got_dict = dict(Packages({"Package": "x", "Breaks": s}).relations).get("breaks")
     if caught:
         raise Violation("warning-on-formatted-relation",
                         "mixin: %s -> %s" % (short(s, 160), short(str(caught[0].message), 160)))
     for what, got in (("Depends", got_d), ("Suggests", got_s), ("Pre-Depends (text)", got_t),
-                      ("Build-Depends", got_b)):
+                      ("Build-Depends", got_b), ("Depends via relations.get()", got_get),
+                      ("Recommends via relations.items()", got_items),
+                      ("Build-Depends-Indep via relations.values()", got_values),
+                      ("Breaks via dict(relations)", got_dict)):
         d = first_difference(got, exp)
         if d is not None:
             raise Violation("mixin-relations-differ:" + d[0],
